@@ -76,6 +76,9 @@ import PyamgV.Driver.ExtE53
 import PyamgV.Driver.ExtE54
 import PyamgV.Driver.ExtE55
 import PyamgV.Driver.ExtE56
+import PyamgV.Driver.ExtE57
+import PyamgV.Driver.ExtE58
+import PyamgV.Driver.ExtE59
 /-! The line-protocol driver: one request per line, one reply per line. Unknown ops reply `bad-op`. -/
 namespace PyamgV.Drv
 
@@ -85,7 +88,8 @@ def handlers : List (List String → Option String) :=
    ExtE5.handle, ExtE6.handle, ExtE7.handle, ExtE8.handle, ExtE9.handle, ExtE10.handle, ExtE11.handle, ExtE12.handle, ExtE13.handle, ExtE14.handle,
    ExtE15.handle, ExtE16.handle, ExtE17.handle, ExtE18.handle, ExtE19.handle, ExtE20.handle, ExtE21.handle, ExtE22.handle, ExtE23.handle, ExtE24.handle, ExtE25.handle, ExtE26.handle, ExtE27.handle, ExtE28.handle, ExtE29.handle, ExtE30.handle,
    ExtE31.handle, ExtE32.handle, ExtE33.handle, ExtE34.handle, ExtE35.handle, ExtE36.handle, ExtE37.handle, ExtE38.handle, ExtE39.handle, ExtE40.handle, ExtE41.handle, ExtE42.handle, ExtE43.handle, ExtE44.handle, ExtE45.handle, ExtE46.handle, ExtE47.handle, ExtE48.handle, ExtE49.handle, ExtE50.handle,
-   ExtE51.handle, ExtE52.handle, ExtE53.handle, ExtE54.handle, ExtE55.handle, ExtE56.handle]
+   ExtE51.handle, ExtE52.handle, ExtE53.handle, ExtE54.handle, ExtE55.handle, ExtE56.handle,
+   ExtE57.handle, ExtE58.handle, ExtE59.handle]
 
 def dispatch (toks : List String) : String :=
   match handlers.findSome? (fun h => h toks) with
